@@ -238,6 +238,51 @@ pub fn run(ctx: &Ctx) -> i32 {
         }
         col.layer("statements that fail while running: forwards / backwards / twice in one thread", err_cases.len() as u64, true, json!({"statements": err_cases.iter().map(|c| c.1.clone()).collect::<Vec<_>>()}));
     }
+    // a row does not depend on the lines before it: under time zones with daylight saving the row of timestamp B is the
+    // same whether the file is [B] or [A, B], for all ordered pairs of instants around both change days (child processes)
+    {
+        let def = "CREATE TABLE z('ts=<([^>]*)>' => ts TIMESTAMP);";
+        let q = "SELECT ts, EXTRACT(EPOCH FROM ts) AS e, EXTRACT(HOUR FROM ts) AS h, ts - ts AS d FROM z";
+        let mut n = 0u64;
+        for (tz, stamps) in [
+            ("Europe/Stockholm", ["2021-03-28 01:30:00", "2021-03-28 04:00:00", "2021-03-27 12:00:00", "2021-10-31 01:30:00", "2021-10-31 04:00:00", "2021-06-15 12:00:00"]),
+            ("EST5EDT,M3.2.0,M11.1.0", ["2021-03-14 01:30:00", "2021-03-14 04:00:00", "2021-03-13 12:00:00", "2021-11-07 00:30:00", "2021-11-07 04:00:00", "2021-06-15 12:00:00"]),
+        ] {
+            let run = |lines: &[&str]| -> Option<Vec<String>> {
+                let data: String = lines.iter().map(|t| format!("ts=<{}>\n", t)).collect();
+                match sut::run_stmt_child_env(def, q, "json", &[Some(data.as_bytes())], 30, &[("TZ", tz)]) {
+                    crate::sut::ChildOut::Done(j) => j["run"]["printed"].as_array().map(|a| a.iter().filter_map(|x| x.as_str().map(|s| s.to_string())).filter(|l| !l.is_empty()).collect()),
+                    _ => None,
+                }
+            };
+            let singles: Vec<Option<Vec<String>>> = stamps.iter().map(|b| run(&[b])).collect();
+            let pairs: Vec<(usize, usize)> = (0..stamps.len()).flat_map(|a| (0..stamps.len()).map(move |b| (a, b))).filter(|(a, b)| a != b).collect();
+            let found: std::sync::Mutex<Vec<Failure>> = std::sync::Mutex::new(Vec::new());
+            par_for(pairs.len() as u64, |i| {
+                let (a, b) = pairs[i as usize];
+                let both = run(&[stamps[a], stamps[b]]);
+                col.eval(1);
+                col.nontrivial(h64(&("tz-line-independence", tz, a, b)));
+                let row_b = both.as_ref().and_then(|r| r.get(1).cloned());
+                let alone = singles[b].as_ref().and_then(|r| r.get(0).cloned());
+                if row_b.is_none() || row_b != alone {
+                    found.lock().unwrap().push(fail(
+                        "row-depends-on-earlier-lines:time-zone".into(),
+                        format!("under TZ={} the row of <{}> is {:?} when the line stands alone and {:?} after the line <{}>", tz, stamps[b], alone, row_b, stamps[a]),
+                        json!({"layer": "tz-line-independence", "tz": tz, "first": stamps[a], "second": stamps[b]}),
+                        json!(alone),
+                        json!(row_b),
+                        i,
+                    ));
+                }
+            });
+            n += pairs.len() as u64;
+            for f in found.into_inner().unwrap() {
+                col.fail(f);
+            }
+        }
+        col.layer("rows of timestamps do not depend on earlier lines (daylight-saving zones, child processes)", n, true, json!({"zones": 2, "instants": 6}));
+    }
     finish(
         ctx,
         &col,
